@@ -169,6 +169,12 @@ def run(ctx, res):
     hs = handlers_of(ctx, lambda t: t[0] in BODY and t[1] in BODY)
     from ..confinement import numeric_rejections
     res.count("numeric rejections", numeric_rejections(ctx, res, "R3.4", hs, "body x body handlers"))
+    # R3.5 vertices / faces found from both sides are merged by the objects' tolerant equality, never by raw coordinates
+    from ..exact import report_coordinate_keys
+    from ..confinement import handler_functions
+    _h, helpers_, _i = handler_functions(ctx)
+    k5 = report_coordinate_keys(ctx, res, "R3.5", hs + [h for h in helpers_ if h not in hs], "the intersection code")
+    ctx.require(res, "R3.5", k5, 4, "functions of the intersection code scanned")
     ctx.require(res, "R3.1", len(hs), 3, "body x body handlers")
     total = 0
     for fi in hs:
